@@ -9,6 +9,7 @@ import (
 	"strings"
 
 	"github.com/libsv/go-bk/base58"
+	"github.com/libsv/go-bk/crypto"
 	"github.com/libsv/go-bt/v2"
 	"github.com/libsv/go-bt/v2/bscript"
 )
@@ -427,6 +428,35 @@ func genC17(e *emitter, tier string, seed uint64) {
 		e.run("C17.dec", strHex(strings.ToUpper(enc)))
 		e.run("C17.dec", strHex("x:"+enc))
 		e.run("C17.dec", strHex(enc+"\n"))
+	}
+	// hand-built texts that are wrong in their body but carry the checksum of exactly the text they show (so that no
+	// corruption of a valid encoding produces them): an odd number of data digits, upper-case digits, one-digit fields,
+	// an empty data field, a checksum in upper case
+	for i := 0; i < k*3; i++ {
+		data := hex.EncodeToString(r.bytes(1 + r.n(6)))
+		var body string
+		kind := ""
+		switch i % 6 {
+		case 0:
+			body, kind = fmt.Sprintf("%s:%02x%02x%s", pfx[i%2], 1+r.n(255), 1+r.n(255), data[:len(data)-1]), "odd-digits"
+		case 1:
+			body, kind = fmt.Sprintf("%s:%02x%02x%s%x", pfx[i%2], 1+r.n(255), 1+r.n(255), data, r.n(16)), "odd-digits-long"
+		case 2:
+			body, kind = fmt.Sprintf("%s:%02x%02x%s", pfx[i%2], 1+r.n(255), 1+r.n(255), strings.ToUpper(data)+"ab"), "upper-case-data"
+		case 3:
+			body, kind = fmt.Sprintf("%s:%x%02x%s", pfx[i%2], 1+r.n(15), 1+r.n(255), data), "one-digit-field"
+		case 4:
+			body, kind = fmt.Sprintf("%s:%02x%02x", pfx[i%2], 1+r.n(255), 1+r.n(255)), "empty-data"
+		default:
+			body, kind = fmt.Sprintf("%s:%02x%02x%s", pfx[i%2], 1+r.n(255), 1+r.n(255), data), "well-formed"
+		}
+		sum := hex.EncodeToString(crypto.Sha256d([]byte(body))[:4])
+		e.run("C17.dec", strHex(body+sum))
+		e.note("dec-selfchecksummed." + kind)
+		if i%6 == 5 {
+			e.run("C17.dec", strHex(body+strings.ToUpper(sum)))
+			e.note("dec-selfchecksummed.upper-case-checksum")
+		}
 	}
 	for _, s := range []string{"", ":", "bitcoin-script:", "bitcoin-script:0101", "bitcoin-script:010100000000", "bitcoin-script:0101deadbeef", ":010151deadbeef"} {
 		e.run("C17.dec", strHex(s))
